@@ -64,11 +64,11 @@ def _arm_facts(arm, names):
             l = A.strip(e["left"])
             r = A.strip(e["right"])
             if l.get("k") == "Index" and A.ident(A.strip(l["e"])) == "word":
-                facts["marks"].append((A.lit_value(l["index"]), A.unparse(r).replace(" ", "")))
+                facts["marks"].append((A.lit_value(l["index"]), A.ftxt(r)))
             elif A.ident(l) == "imm":
-                facts["imm"].append(A.unparse(r).replace(" ", ""))
+                facts["imm"].append(A.ftxt(r))
             elif A.ident(l) == "mem_count":
-                facts["mem"].append(A.unparse(r).replace(" ", ""))
+                facts["mem"].append(A.ftxt(r))
             else:
                 facts["other"].append(A.unparse(e))
         else:
@@ -144,7 +144,7 @@ def r3_store_reg(rule, root=None):
         raise A.AnchorLost("`let mut store_reg = |i, r| ..` in Bytecode::new")
     cl = A.strip(lets[0]["init"])
     pi, pr = [A.binding_name(p) for p in cl["inputs"]]
-    t = A.unparse(cl["body"]).replace(" ", "")
+    t = A.ftxt(cl["body"])
     need = {
         "repacked through the frequency map": "letr=map[&%s];" % pr,
         "reserved register rejected": "if(r==u8::MAX){Err(ReservedRegister)}",
@@ -162,7 +162,7 @@ def r3_store_reg(rule, root=None):
         if l.get("k") == "Index" and A.ident(A.strip(l["e"])) == "word":
             if any(n is a for n in A.walk(cl)):
                 continue
-            r = A.unparse(A.strip(a["right"])).replace(" ", "")
+            r = A.ftxt(A.strip(a["right"]))
             i = A.lit_value(l["index"])
             if r == "u8::MAX" and i in (1, 2, 3):
                 continue
@@ -171,7 +171,7 @@ def r3_store_reg(rule, root=None):
                 continue
             rule.bad("word|direct|%s" % i, "word[%s] is written directly with `%s` (register bytes must go through store_reg; byte 0 must be BytecodeOp::from(op) as u8)" % (i, r), A.where(fn, a))
     # the map comes from the tape's own repack_map
-    t = A.unparse(fn["body"]).replace(" ", "")
+    t = A.ftxt(fn["body"])
     if "letmap=t.asm().repack_map();" in t:
         rule.ok("register map is t.asm().repack_map()")
     else:
@@ -184,7 +184,7 @@ def r3_store_reg(rule, root=None):
 
 def r4_framing(rule, root=None):
     fn = new_fn(root)
-    t = A.unparse(fn["body"]).replace(" ", "")
+    t = A.ftxt(fn["body"])
     checks = [
         ("start marker", "letmutdata=vec!(u32::MAX,0u32);"),
         ("tape walked in evaluation order", "foropint.iter_asm()"),
@@ -200,8 +200,8 @@ def r4_framing(rule, root=None):
             rule.bad("framing|%s" % what, "Bytecode::new no longer contains `%s` (%s)" % (frag, what), A.where(fn))
     # the end marker is the last mutation of data
     stmts = fn["body"]["stmts"]
-    idx_ext = [i for i, s in enumerate(stmts) if "data.extend" in A.unparse(s).replace(" ", "")]
-    later = [s for s in stmts[idx_ext[-1] + 1:] if "data." in A.unparse(s).replace(" ", "") and "data," not in A.unparse(s)] if idx_ext else []
+    idx_ext = [i for i, s in enumerate(stmts) if "data.extend" in A.ftxt(s)]
+    later = [s for s in stmts[idx_ext[-1] + 1:] if "data." in A.ftxt(s) and "data," not in A.unparse(s)] if idx_ext else []
     loops = [i for i, s in enumerate(stmts) if A.strip(A.stmt_expr(s) or {}).get("k") == "For"]
     if idx_ext and loops and idx_ext[-1] > loops[-1] and not later:
         rule.ok("end marker follows the loop and nothing mutates data afterwards")
@@ -215,7 +215,7 @@ def r4_framing(rule, root=None):
         rule.ok("BytecodeOp is repr(u8)")
     disc = [v["name"] for v in e["variants"] if "disc" in v]
     io = A.find_fn(BC, "iter_ops", root=root)
-    it = A.unparse(io["body"]).replace(" ", "")
+    it = A.ftxt(io["body"])
     by_position = ".enumerate()" in it and "(iasu8)" in it
     by_value = "asu8" in it and not by_position
     if disc and by_position:
@@ -263,7 +263,7 @@ def r5_visit_regs(rule, root=None):
             if v not in seen:
                 rule.bad("%s|%s|missing" % (fname, v), "RegOp::%s has no arm for %s" % (fname, v), A.where(fn, ms[0]))
     rt = A.find_fn("fidget-core/src/compiler/reg_tape.rs", "repack", self_ty="RegTape", root=root)
-    t = A.unparse(rt["body"]).replace(" ", "")
+    t = A.ftxt(rt["body"])
     if "op.visit_regs_mut(|reg|*reg=map[reg])" in t and "foropin&mutself.tape" in t:
         rule.ok("repack rewrites every register of every op through the map")
     else:
